@@ -114,13 +114,23 @@ func c15Read(w *hx.Writer, chunks [][]byte, k int, exp *c15expect, tags ...strin
 	conn := &scriptedConn{chunks: cc}
 	var res []string
 	impl := hx.Catch(func() string {
+		// the frames are looked at only after the whole stream has been read: a frame handed to the
+		// caller must stay what it was while later frames are read (the pipelines hold frames)
+		var held [][]byte
+		failed := false
 		for i := 0; i < k; i++ {
 			b, err := p2p.VerifReadFrom(conn)
 			if err != nil {
-				res = append(res, hx.E)
+				failed = true
 				break
 			}
+			held = append(held, b)
+		}
+		for _, b := range held {
 			res = append(res, hx.B(b))
+		}
+		if failed {
+			res = append(res, hx.E)
 		}
 		return hx.L(hx.L(res...), hx.Zi(conn.remaining()))
 	})
